@@ -62,6 +62,12 @@ def tasks(tier, seed):
     for g in range(10):
         out.append({"fn": "order", "kwargs": {"layout": [[g, 3]], "readouts": 2, "debug": g % 2 == 0, "via": "python" if g % 2 else "mapping_rev", "mode": "exposure"},
                     "label": f"ingroup/{CANON[g]}"})
+    # every group in every mode that works on copies of the processor
+    for g in range(10):
+        for mode in ("observation", "dask_fn", "fitness"):
+            other = (g + 3) % 10
+            out.append({"fn": "order", "kwargs": {"layout": [[g, 2], [other, 1]], "readouts": 1 + g % 2, "debug": False, "via": ("python", "mapping_rev")[g % 2], "mode": mode},
+                        "label": f"modes/{mode}/{CANON[g]}+{CANON[other]}"})
     if tier == "quick":
         out.append({"fn": "order", "kwargs": {"layout": [[g, 1] for g in (0, 1, 3, 4, 5, 6, 8, 9)], "readouts": 1, "debug": False, "via": "mapping_rot", "mode": "exposure"},
                     "label": "all8", "caps": {"max_seconds": 500, "max_paths": 5000}})
@@ -140,6 +146,35 @@ def _pipeline(specs, via):
     return to_pipeline(dct)
 
 
+def _run(mode, m, det, pipe, debug, swept, times):
+    """The running modes: exposure / sequential observation through run_mode, the function every dask worker executes,
+    and the fitness evaluation of calibration (each candidate runs the pipeline once)."""
+    import pyxel
+    from pyxel.exposure import Readout
+    from pyxel.observation import ParameterValues
+    from pyxel.pipelines import Processor
+
+    if mode in ("exposure", "observation"):
+        pyxel.run_mode(mode=m, detector=det, pipeline=pipe, debug=debug)
+    elif mode == "dask_fn":
+        from pyxel.observation.observation_dask import _run_pipelines_array_to_datatree
+
+        _run_pipelines_array_to_datatree(params_tuple=(swept[1],), output_filename_suffix=None, dimension_names={swept[2]: "a"}, processor=Processor(detector=det, pipeline=pipe),
+                                         readout=Readout(times=times), outputs=None, pipeline_seed=None, progressbar=False)
+    else:
+        from pyxel.calibration.fitting_datatree import ModelFittingDataTree
+
+        prob = ModelFittingDataTree.__new__(ModelFittingDataTree)
+        prob._variables = [ParameterValues(key=swept[2], values="_", boundaries=(0.0, 10.0))]
+        prob.pop, prob.readout, prob.pipeline_seed = 2, Readout(times=times), None
+        prob._with_inherited_coords, prob.sim_output, prob.sim_fit_range = True, "pixel", None
+        prob.weighting = prob.weighting_from_file = None
+        prob.fitness_func = lambda simulated, target, weighting: 0.0
+        prob.param_processor_list = [Processor(detector=det, pipeline=pipe)]
+        prob.all_target_data = [np.zeros((2, 2))]
+        prob.fitness(np.array([float(swept[1])]))
+
+
 def order(layout, readouts, debug, via, mode):
     import pyxel
     from pyxel.exposure import Exposure, Readout
@@ -155,11 +190,11 @@ def order(layout, readouts, debug, via, mode):
         m = Exposure(readout=Readout(times=times))
     else:
         s0 = specs[0]
-        swept = (s0, 7)
-        m = Observation(parameters=[ParameterValues(key=f"pipeline.{s0['group']}.{s0['name']}.arguments.a", values=[7])], readout=Readout(times=times))
+        swept = (s0, 7, f"pipeline.{s0['group']}.{s0['name']}.arguments.a")
+        m = Observation(parameters=[ParameterValues(key=swept[2], values=[7])], readout=Readout(times=times))
     raised = None
     try:
-        pyxel.run_mode(mode=m, detector=det, pipeline=pipe, debug=debug)
+        _run(mode, m, det, pipe, debug, swept, times)
     except (KeyError, ValueError) as e:
         # sweeping an argument of a disabled model is refused (C08): nothing may have run
         if mode != "observation":
@@ -226,12 +261,14 @@ def _concrete_calls(kwargs, inp):
     det = make_ccd(2, 2)
     vxprobes.reset(_hook)
     times = [float(i + 1) for i in range(readouts)]
+    swept = None
     if mode == "exposure":
         m = Exposure(readout=Readout(times=times))
     else:
-        m = Observation(parameters=[ParameterValues(key=f"pipeline.{first[0]}.{first[1].name}.arguments.a", values=[7])], readout=Readout(times=times))
+        swept = (None, 7, f"pipeline.{first[0]}.{first[1].name}.arguments.a")
+        m = Observation(parameters=[ParameterValues(key=swept[2], values=[7])], readout=Readout(times=times))
     try:
-        pyxel.run_mode(mode=m, detector=det, pipeline=pipe, debug=debug)
+        _run(mode, m, det, pipe, debug, swept, times)
     except (KeyError, ValueError):
         vxprobes.reset(None)
         if mode != "observation":
@@ -336,7 +373,7 @@ def replay(oid, kwargs, model, data):
         first = (CANON[layout[0][0]], 0)
         for (s, t, kw) in calls:
             gi = CANON.index(t[0])
-            a = 7 if (kwargs["mode"] == "observation" and t == first) else int(model.get(f"a_{gi}_{t[1]}", 0))
+            a = 7 if (kwargs["mode"] != "exposure" and t == first) else int(model.get(f"a_{gi}_{t[1]}", 0))
             if set(kw) != {"a", "b"} or kw["a"] != a or abs(kw["b"] - float(model.get(f"b_{gi}_{t[1]}", 0))) > 1e-9:
                 bad = True
     return bad, {"got": got[:12], "want": want[:12]}
